@@ -264,6 +264,18 @@ for v in ck.violations:
             v['replayed'] = rep.get('replay1_ok') is False or rep.get('replay1_matches') is False
         else:
             v['replayed'] = rep.get('replay2_ok') is False or rep.get('new_record_recovered') is False or rep.get('replay2_prefix_matches') is False
+    elif w.get('router_op'):
+        kc = {v_: k_ for k_, v_ in KC.items()}.get(w.get('key_class'), 'Metadata')
+        rep = Replay.call({'op': 'durable_op', 'router_op': w['router_op'], 'key_class': kc})
+        v['native'] = rep
+        recs = rep.get('records', [])
+        mine = recs[rep.get('records_after_put', 0):] if w['router_op'] == 'delete_durable' else recs
+        want = ('MetadataDelete:' if w['router_op'] == 'delete_durable' else 'MetadataSet:') + str(rep.get('key'))
+        if kc == 'Cache':
+            v['replayed'] = bool(recs)
+        else:
+            # the record that makes the write visible on recovery is the last one the call writes
+            v['replayed'] = (not mine) or mine[-1] != want
     elif w.get('wal') == 'tensor-manual':
         rep = Replay.call({'op': 'wal_manual', 'steps': w['steps'], 'cut': w['cut'], 'len': w['len'], 'flushed': w['flushed']})
         v['native'] = rep
